@@ -1,5 +1,6 @@
 import Dbg.Spec.C03
 import Dbg.Lemmas.GraphProofs
+import Dbg.Lemmas.Beam
 import Dbg.Lemmas.GraphSym
 import Dbg.Lemmas.GInvCompress
 import Dbg.Lemmas.EdgeComplete
@@ -77,6 +78,29 @@ theorem C03_maxPath_sequence (g : G D) (hK : 1 ≤ g.K) (hl : ∀ (i : Nat) (n :
   have hw := maxPath_walk g score solid
   rw [hp] at hw ⊢
   exact walk_sequence g hK hl p0 rest (hw.nodes p0 (by simp)) (fun p h => hw.nodes p (by simp [h])) (hw.chain p0 rest rfl)
+
+/-- **C03 (beam search).** Every path `max_path_beam` returns — for every graph, beam width and score — is a trail:
+    consecutive entries follow reported edges and every node exists (a node may occur twice: the search keeps paths
+    that just closed a cycle). -/
+theorem C03_maxPathBeam_trail (g : G D) (beam : Nat) (score : D → Int) (path : List (Nat × Dir))
+    (h : maxPathBeam g beam score = some path) : IsTrail g path :=
+  maxPathBeam_trail g beam score path h
+
+/-- the spelled beam path consists of exactly the k-mers of its nodes, in walking orientation and order -/
+theorem C03_maxPathBeam_sequence (g : G D) (hK : 1 ≤ g.K) (hl : ∀ (i : Nat) (n : Node D), g.nodes[i]? = some n → g.K ≤ n.seq.length)
+    (beam : Nat) (score : D → Int) (p0 : Nat × Dir) (rest : List (Nat × Dir)) (hp : maxPathBeam g beam score = some (p0 :: rest)) :
+    ∃ S, sequenceOfPath g (p0 :: rest) = some S ∧ Compress.windowsOf g.K S = (p0 :: rest).flatMap (orientedKmers g) := by
+  have hw := maxPathBeam_trail g beam score _ hp
+  exact walk_sequence g hK hl p0 rest (hw.nodes p0 (by simp)) (fun p h => hw.nodes p (by simp [h])) (hw.chain p0 rest rfl)
+
+/-- **the beam search terminates** on every non-empty graph within `nodes.length + 1` rounds (an active path repeats no
+    node), independently of the fuel of the model; the only way to panic is `states[0]` on an empty beam. -/
+theorem C03_maxPathBeam_terminates (g : G D) (beam : Nat) (score : D → Int) (hne : g.nodes.isEmpty = false) :
+    (∃ sts, beamLoop g score beam (g.nodes.length + 2) (beamInit g score) = some sts ∧
+      maxPathBeam g beam score = sts.head?.map (·.path)) ∧
+    ∀ fuel, g.nodes.length + 1 ≤ fuel →
+      beamLoop g score beam fuel (beamInit g score) = beamLoop g score beam (g.nodes.length + 2) (beamInit g score) :=
+  ⟨maxPathBeam_returns g beam score hne, fun fuel hf => maxPathBeam_fuel g beam score fuel hf⟩
 
 /-- **C03 (symmetry).** In every graph satisfying the node-level invariant `GInv` (nodes of at least K bases, terminal
     k-mers identify their node and side, extensions reciprocal — a palindromic single-k-mer node records them from either
